@@ -22,16 +22,25 @@ import c10_gen as G
 PROP = 'C10'
 
 
-def run_case(mode, spec, tree):
-    target = B.tree_py(tree)
-    before = B.snapshot(target)
+def run_seq(mode, spec, trees):
+    """ONE spec object evaluated on the targets in sequence; one observation per target."""
     ctx = B.Ctx()
     s, failed = B.build(spec, ctx, wrap=Match if mode == 'match' else None)
-    ob = failed if failed else B.observe(lambda: glom.glom(target, s))
-    ob['calls'] = list(ctx.calls)
-    ob['same'] = bool(ob['ok'] and ob['res'] is target)
-    ob['unchanged'] = B.snapshot(target) == before
-    return ob
+    obs = []
+    for tree in trees:
+        target = B.tree_py(tree)
+        before = B.snapshot(target)
+        del ctx.calls[:]
+        ob = dict(failed) if failed else B.observe(lambda: glom.glom(target, s))
+        ob['calls'] = list(ctx.calls)
+        ob['same'] = bool(ob['ok'] and ob['res'] is target)
+        ob['unchanged'] = B.snapshot(target) == before
+        obs.append(ob)
+    return obs
+
+
+def run_case(mode, spec, tree):
+    return run_seq(mode, spec, [tree])[0]
 
 
 def judge(o, ob):
@@ -85,6 +94,17 @@ def worker(states):
 def _worker(states):
     out = dict(n=0, cases=0, nontrivial=0, ok=0, fail=0, foreign=0, opform=0, checks=0, bad=[], samples=[], by_op={})
     for st in states:
+        if st.get('phase') == 3:              # one spec object, evaluated on target and then on target2
+            obs = run_seq(st['mode'], st['spec'], [st['target'], st['target2']])
+            out['n'] += 2
+            out['reused'] = out.get('reused', 0) + 1
+            for k, (o, ob, t) in enumerate(((st['pred'], obs[0], st['target']), (st['pred2'], obs[1], st['target2']))):
+                why = judge(o, ob)
+                if why:
+                    out['bad'].append(dict(why='%s evaluation of one spec object: %s' % (('first', 'second')[k], why),
+                                           case=dict(kind='spec->code', mode=st['mode'], spec=st['spec'], target=t, pred=o,
+                                                     history=[st['target']][:k], obs=B.json_safe(ob))))
+            continue
         if st.get('phase') != 2:
             continue
         if st['mode'] == 'ctor':              # construction of a spec: 'ok' or the documented exception class
@@ -119,21 +139,31 @@ def _worker(states):
 
 
 # ---- code -> spec ---------------------------------------------------------------------------
+def record_rows(mode, spec, trees):
+    """rows of ONE spec object evaluated on the targets in sequence (each row is judged on its
+    own: specs carry no memory)"""
+    rows = []
+    for k, (tree, ob) in enumerate(zip(trees, run_seq(mode, spec, trees))):
+        cells, root = B.tree_cells(tree)
+        obs = dict(ok=ob['ok'], v=B.py_tree(ob['res']) if ob['ok'] else {'k': 'none'}, cls=ob.get('cls', ''),
+                   site=ob.get('site', ''), calls=ob['calls'], same=ob['same'], unchanged=ob['unchanged'])
+        rows.append(dict(mode=mode, spec=spec, heap=cells, root=root, obs=obs, nth_use=k + 1))
+    return rows
+
+
 def record_row(mode, spec, tree):
-    ob = run_case(mode, spec, tree)
-    cells, root = B.tree_cells(tree)
-    obs = dict(ok=ob['ok'], v=B.py_tree(ob['res']) if ob['ok'] else {'k': 'none'}, cls=ob.get('cls', ''),
-               site=ob.get('site', ''), calls=ob['calls'], same=ob['same'], unchanged=ob['unchanged'])
-    return dict(mode=mode, spec=spec, heap=cells, root=root, obs=obs)
+    return record_rows(mode, spec, [tree])[0]
 
 
 def record(check, n, seed):
     rng = random.Random(seed)
     inputs = []
-    for _ in range(n):
+    while sum(len(i[2]) for i in inputs) < n:
         mode = rng.choice(['auto', 'match'])
-        inputs.append((mode, B.normalize(G.gen_tree(rng, mode, rng.randint(1, 5), [0])), G.rand_target(rng)))
-    rows = [r for r in B.pmap(record_row, inputs) if not (r['obs']['ok'] and 'opaque' in json.dumps(r['obs']['v']))]
+        k = rng.randint(2, 4) if rng.random() < 0.3 else 1       # the same spec object on several targets in a row
+        inputs.append((mode, B.normalize(G.gen_tree(rng, mode, rng.randint(1, 5), [0])), [G.rand_target(rng) for _ in range(k)]))
+    rows = [r for rs in B.pmap(record_rows, inputs) for r in rs
+            if not (r['obs']['ok'] and 'opaque' in json.dumps(r['obs']['v']))]
     rejects = vlib.validate_rows(check, 'Trace_C10', rows, 'random-trees', chunk=4000)
     for row, rej in rejects:
         row['_rejected'] = True
@@ -198,7 +228,8 @@ MUTANTS = [('or_last', ('Result', 'ShortCircuit'), dict(Depth=1, Wide='FALSE')),
            ('msub_returns_sub', ('Result', 'Passthrough'), dict(Depth=1, Wide='FALSE')),                    # M(T[..]) op c
            ('check_returns_subtarget', ('Result', 'Passthrough'), dict(Depth=1, Wide='FALSE')),             # Check(spec, ..)
            ('unorderable_is_rejection', ('Unorderable',), dict(Depth=1, Wide='FALSE')),                     # unorderable operands
-           ('required_constant_allowed', ('CtorLaw',), dict(Depth=1, Wide='FALSE'))]                        # Optional / Required construction
+           ('required_constant_allowed', ('CtorLaw',), dict(Depth=1, Wide='FALSE')),
+           ('or_remembers_branch', ('HistoryFree',), dict(Depth=1, Wide='FALSE'))]                          # specs carry no memory                        # Optional / Required construction
 
 
 def main(tier, seed):
@@ -210,15 +241,16 @@ def main(tier, seed):
     res, results = vlib.map_states('MC_C10', worker, constants=consts)
     check.add_tlc(res, 'MC_C10 %s' % consts)
     tot = dict(cases=0, ok=0, fail=0, foreign=0, opform=0, checks=0)
-    nctor = 0
+    nctor = nreused = 0
     by_op = {}
     for r in results:
         if 'error' in r:
             raise vlib.MachineryError('replay worker failed:\n' + r['error'])
         check.cov['evaluations'] += r['n']
         check.cov['distinct_nontrivial'] += r['nontrivial']
-        check.validated(r['cases'] + r.get('ctor', 0) - len(r['bad']))
+        check.validated(r['cases'] + r.get('ctor', 0) + r.get('reused', 0) - len(r['bad']))
         nctor += r.get('ctor', 0)
+        nreused += r.get('reused', 0)
         for k in tot:
             tot[k] += r[k]
         for op, cs in r['by_op'].items():
@@ -232,6 +264,9 @@ def main(tier, seed):
     check.extra['cases'] = dict(total=tot['cases'], predicted_success=tot['ok'], predicted_failure=tot['fail'],
                                 foreign_error=tot['foreign'], with_operator_forms=tot['opform'], check_cases=tot['checks'])
     check.extra['cases']['constructor_cases'] = nctor
+    check.extra['cases']['spec_object_reused_cases'] = nreused
+    if nreused == 0:
+        problems.append('no reuse cases')
     if nctor == 0:
         problems.append('no constructor cases')
     check.extra['cases']['by_mode_and_root'] = {op: dict(success=c[0], glom_error=c[1], foreign_error=c[2])
